@@ -124,6 +124,16 @@ check('C16', 'proof',
       'Trusted: Coq kernel, extraction + driver, harness; CPython struct.pack range checks and float32 rounding (only float32-representable values are generated).',
       'Coq proof (writer model = spec encoder, composed with the decoder theorem) + differential write/read run', 'DESIGN.md §6 C16')
 
+check('C09', 'other',
+      'Exhaustive over the bundled versions rather than proved: for EVERY bundled wows version (76) two to four synthetic battles, and for the wot/wowp '
+      'versions minimal ones, are encoded against that version\'s own definitions - index maps and types taken from the extracted Coq model, the container '
+      'from the extracted writer - and parsed by ReplayParser(strict=True); player id, arena id, map, ordered death list, per-victim/per-attacker damage '
+      'totals (amount fields named by that version\'s definition), achievement and ribbon counts, battle result and the id-keyed roster merge (incl. a '
+      'mid-battle join and a later update) are compared field by field with what the generator put into the stream. The decoding underneath is covered '
+      'by the C03/C05/C07 theorems. No Gallina model of the 82 controllers is proved: that is why the level is "other".',
+      'Trusted: the generator (its expectation of each field), pickle and the controllers\' use of it, everything C01/C03/C04/C05/C07 trust.',
+      'exhaustive-over-versions differential run of generated battles against generator-side expectations (no theorem about the controllers)', 'DESIGN.md §6 C09')
+
 NOT_YET = {}
 ALL = ['C%02d' % i for i in range(1, 20)]
 def main():
